@@ -6,8 +6,8 @@ import DastardV.Lemmas.C17TypedD
 namespace DastardV.C17
 
 theorem step_recv {S : System} {pre : Trace} {o : OSt} {f f' : FSt} {t : Tid} {c : Obj} {H H' : List Tok}
-    (g : Good S pre o f) (cx : Ctx S pre t (.recv c) H H') (hF : stepF f (t, .recv c) = some f') :
-    ∃ o', stepO S.sp o (t, .recv c) = some o' ∧ Good S (pre ++ [(t, .recv c)]) o' f' := by
+    (g : GoodT S pre o f) (cx : Ctx S pre t (.recv c) H H') (hF : stepF f (t, .recv c) = some f') :
+    ∃ o', stepO S.sp o (t, .recv c) = some o' ∧ GoodT S (pre ++ [(t, .recv c)]) o' f' := by
   obtain ⟨hlt, hf⟩ := stepF_recv hF
   subst hf
   have hE := cx.tE
@@ -54,8 +54,8 @@ theorem step_recv {S : System} {pre : Trace} {o : OSt} {f f' : FSt} {t : Tid} {c
 
 theorem step_recvC {S : System} (ok : S.OK) {pre : Trace} {o : OSt} {f f' : FSt} {t : Tid} {c : Obj}
     {H H' : List Tok}
-    (g : Good S pre o f) (cx : Ctx S pre t (.recvC c) H H') (hF : stepF f (t, .recvC c) = some f') :
-    ∃ o', stepO S.sp o (t, .recvC c) = some o' ∧ Good S (pre ++ [(t, .recvC c)]) o' f' := by
+    (g : GoodT S pre o f) (cx : Ctx S pre t (.recvC c) H H') (hF : stepF f (t, .recvC c) = some f') :
+    ∃ o', stepO S.sp o (t, .recvC c) = some o' ∧ GoodT S (pre ++ [(t, .recvC c)]) o' f' := by
   have hf := stepF_recvC hF
   subst hf
   have hE := cx.tE
@@ -77,8 +77,8 @@ theorem step_recvC {S : System} (ok : S.OK) {pre : Trace} {o : OSt} {f f' : FSt}
     · intro _ _; exact ⟨nofun, nofun⟩
 
 theorem step_lock {S : System} {pre : Trace} {o : OSt} {f f' : FSt} {t : Tid} {m : Obj} {H H' : List Tok}
-    (g : Good S pre o f) (cx : Ctx S pre t (.lock m) H H') (hF : stepF f (t, .lock m) = some f') :
-    ∃ o', stepO S.sp o (t, .lock m) = some o' ∧ Good S (pre ++ [(t, .lock m)]) o' f' := by
+    (g : GoodT S pre o f) (cx : Ctx S pre t (.lock m) H H') (hF : stepF f (t, .lock m) = some f') :
+    ∃ o', stepO S.sp o (t, .lock m) = some o' ∧ GoodT S (pre ++ [(t, .lock m)]) o' f' := by
   obtain ⟨hheld, hf⟩ := stepF_lock hF
   subst hf
   have hE := cx.tE
@@ -106,8 +106,8 @@ theorem step_lock {S : System} {pre : Trace} {o : OSt} {f f' : FSt} {t : Tid} {m
     · intro _ _; exact ⟨nofun, nofun⟩
 
 theorem step_start {S : System} {pre : Trace} {o : OSt} {f f' : FSt} {t : Tid} {H H' : List Tok}
-    (g : Good S pre o f) (cx : Ctx S pre t .start H H') (hF : stepF f (t, .start) = some f') :
-    ∃ o', stepO S.sp o (t, .start) = some o' ∧ Good S (pre ++ [(t, .start)]) o' f' := by
+    (g : GoodT S pre o f) (cx : Ctx S pre t .start H H') (hF : stepF f (t, .start) = some f') :
+    ∃ o', stepO S.sp o (t, .start) = some o' ∧ GoodT S (pre ++ [(t, .start)]) o' f' := by
   obtain ⟨hs, hf⟩ := stepF_start hF
   subst hf
   have hE := cx.tE
@@ -143,8 +143,8 @@ theorem step_start {S : System} {pre : Trace} {o : OSt} {f f' : FSt} {t : Tid} {
 
 theorem step_wgWait {S : System} (ok : S.OK) {pre : Trace} {o : OSt} {f f' : FSt} {t : Tid} {w : Obj}
     {H H' : List Tok}
-    (g : Good S pre o f) (cx : Ctx S pre t (.wgWait w) H H') (hF : stepF f (t, .wgWait w) = some f') :
-    ∃ o', stepO S.sp o (t, .wgWait w) = some o' ∧ Good S (pre ++ [(t, .wgWait w)]) o' f' := by
+    (g : GoodT S pre o f) (cx : Ctx S pre t (.wgWait w) H H') (hF : stepF f (t, .wgWait w) = some f') :
+    ∃ o', stepO S.sp o (t, .wgWait w) = some o' ∧ GoodT S (pre ++ [(t, .wgWait w)]) o' f' := by
   obtain ⟨hcnt, hf⟩ := stepF_wgWait hF
   subst hf
   have ht := cx.wait_adder ok
@@ -200,8 +200,8 @@ theorem step_wgWait {S : System} (ok : S.OK) {pre : Trace} {o : OSt} {f f' : FSt
 
 theorem step_wgAdd {S : System} (ok : S.OK) {pre : Trace} {o : OSt} {f f' : FSt} {t : Tid} {w : Obj}
     {H H' : List Tok}
-    (g : Good S pre o f) (cx : Ctx S pre t (.wgAdd w) H H') (hF : stepF f (t, .wgAdd w) = some f') :
-    ∃ o', stepO S.sp o (t, .wgAdd w) = some o' ∧ Good S (pre ++ [(t, .wgAdd w)]) o' f' := by
+    (g : GoodT S pre o f) (cx : Ctx S pre t (.wgAdd w) H H') (hF : stepF f (t, .wgAdd w) = some f') :
+    ∃ o', stepO S.sp o (t, .wgAdd w) = some o' ∧ GoodT S (pre ++ [(t, .wgAdd w)]) o' f' := by
   have hf := stepF_wgAdd hF
   subst hf
   have ht := cx.add_adder ok
